@@ -802,6 +802,7 @@ func (ex *Exec) callSiteObligations(st *State, in ssa.Instruction, site, calleeN
 		for i, a := range args {
 			env.vars[fmt.Sprintf("arg%d", i)] = a
 		}
+		env.locals = map[string]Val{} // returned(f, i) / called(f): results of earlier calls on this path
 		g := ex.evalClause(env, cl, con)
 		ex.obligeNamed(st, in, "callsite", cl.Label+"@"+site, g, cl.Src, ex.propsOf(cl, con))
 	}
